@@ -170,7 +170,7 @@ impl Sim {
                             Flavour::Enum => <ex_enum::ExampleContract as NonFungibleToken>::owner_of(e, j),
                             Flavour::Cons => <ex_cons::ExampleContract as NonFungibleToken>::owner_of(e, j),
                         });
-                        if j == hi {
+                        if j == hi || j - start >= 63 {
                             break;
                         }
                         j += 1;
@@ -182,13 +182,12 @@ impl Sim {
             for a in got.iter() {
                 res.push(Some(self.u.index_of(a).unwrap_or(99)));
             }
-            let done = matches!(r, Some(Ok(_)));
-            if done {
-                break;
+            let ok = matches!(r, Some(Ok(_)));
+            if !ok {
+                // the id after the successfully read ones failed
+                res.push(None);
             }
-            // the id after the successfully read ones failed
-            res.push(None);
-            let next = start as u64 + k + 1;
+            let next = start as u64 + k + if ok { 0 } else { 1 };
             if next > hi as u64 {
                 break;
             }
